@@ -352,16 +352,20 @@ class MinViolations:
     def __init__(self):
         self.best = {}
         self.n = 0
+        self.per = {}  # signature -> number of violating cases (all of them, not only the kept smallest)
 
     def add(self, size, oracle, sig, replay, msg):
         self.n += 1
         key = (oracle, tuple(sorted(sig.items())))
+        self.per[key] = self.per.get(key, 0) + 1
         cur = self.best.get(key)
         if cur is None or size < cur[0]:
             self.best[key] = (size, oracle, dict(sig), replay, msg)
 
     def merge(self, other):
         self.n += other.n
+        for key, c in other.per.items():
+            self.per[key] = self.per.get(key, 0) + c
         for key, v in other.best.items():
             cur = self.best.get(key)
             if cur is None or v[0] < cur[0]:
@@ -372,6 +376,8 @@ class MinViolations:
             ctx.violation(v[1], v[2], v[3], v[4])
         if self.n:
             ctx.counts["violating_cases"] = self.n
+            ctx.note("violating_cases_by_sig", [{"oracle": k[0], "sig": dict(k[1]), "cases": c}
+                                                for k, c in sorted(self.per.items(), key=lambda kv: -kv[1])])
 
 
 def input_size(states, subs):
